@@ -200,6 +200,8 @@ Proof.
     intros H Hi.
     assert (Hsh : item_shape_ok it) by (rewrite <- (nth_error_nth _ _ dummy_item En); apply Hi).
     destruct r; inv H; try exact Hi. apply inv_shape_set_item; [exact Hi | exact Hsh].
+  - unfold set_header. destruct (lf_at st l); [|intros H; inv H; auto].
+    destruct is_id, r; intros H Hi; inv H; exact Hi.
 Qed.
 
 Theorem run_ops_inv_shape : forall ops ps st, Inv_shape st -> Inv_shape (bstate_of (run_ops ps st ops)).
